@@ -16,8 +16,8 @@
 
   NOT carried (monitor only, `uncovered_clauses`): float FFT accuracy, the ripple bounds, the
   "below max(0.01, 0.6 % of peak) beyond the fall time" inequality, everything involving EOM blocks
-  in `ChannelSamples.modulate`, and the identification of the two readings of the filter
-  (convolution theorem), which the driver checks numerically.
+  in `ChannelSamples.modulate`, and that the code's kernel `ifft(m)` is non-negative (it is not,
+  exactly: see the ripple measured by the monitor).
 -/
 import Proofs.Modulation
 import Mathlib.Analysis.SpecialFunctions.Log.Basic
@@ -65,6 +65,15 @@ example : ∑ i, modulateDft (fun t => (-1 : ℚ) ^ t) (fun t => (-1 : ℚ) ^ t)
         norm_num) (by norm_num)
     (fun k : Fin 2 => if k = 0 then 1 else 1 / 3) (fun j : Fin 2 => if j = 0 then 5 else 7) (by simp)
   rw [this]; simp [Fin.sum_univ_two]; norm_num
+
+/-- **The two readings agree** (convolution theorem): for `ω` with `ω^n = 1` and inverse `ωi`, the
+filter as coded, `ifft(fft(x)·m)`, *is* the circular convolution of `x` with the impulse response
+`kernelOf = ifft(m)`.  Hence the kernel-level statements below speak about the code's filter. -/
+theorem modulate_is_convolution {K : Type} [Field K] {n : Nat} (ω ωi ninv : K) (hω : ω ^ n = 1)
+    (hinv : ω * ωi = 1) (m x : Fin n → K) (i : Fin n) :
+    modulateDft (fun t => ω ^ t) (fun t => ωi ^ t) ninv m x i =
+      circConv (kernelOf (fun t => ωi ^ t) ninv m) x i :=
+  modulateDft_eq_circConv ω ωi ninv hω hinv m x i
 
 /-- **No negative output from non-negative input, no output above the input maximum** — for a
 kernel that is non-negative and sums to one.  (Hypothesis on the kernel: true of a Gaussian,
